@@ -84,7 +84,7 @@ PROPS["C08"] = dict(
 )
 PROPS["C02"] = dict(
     title="Query and Scan return exactly the matching items, in sort-key order",
-    quick=[G("M_READ"), T("M_DOTQ"), G("M_IDX"), G("M_TIDX"), H(30)],
+    quick=[G("M_READ"), T("M_DOTQ"), G("M_TIDX"), G("M_IDX", cfg="M_IDX_ill"), H(30)],
     thorough=[G("M_READ", cfg="M_READ_t"), T("M_DOTQ"), G("M_IDX", cfg="M_IDX_t"), G("M_TIDX", cfg="M_TIDX_t"), H(600, 60)],
     own=[parts("Outcome", "Data", "NoCrash"), parts("Index")],
     when=lambda f: f["op"] in ("Query", "Scan", "Walk") or any(p.endswith(".Index") for p in f["parts"]),   # reads, and reads through indexes in observations
@@ -142,7 +142,7 @@ PROPS["C19"] = dict(
 )
 PROPS["C17"] = dict(
     title="the SDK v1 and SDK v2 clients are behaviourally equivalent",
-    quick=[G("M_MODE"), G("M_LIFE", cfg="M_LIFE_b"), G("M_IDX"), G("M_BATCH", cfg="M_BGET"), G("M_NATIVE", cfg="M_NATIVE_pre"), G("M_KC"), T("M_DOTQ"), H(30)],
+    quick=[G("M_MODE"), G("M_LIFE", cfg="M_LIFE_b"), G("M_TIDX"), G("M_BATCH", cfg="M_BGET"), G("M_NATIVE", cfg="M_NATIVE_pre"), G("M_KC"), T("M_DOTQ"), H(30)],
     thorough=[G("M_MODE", cfg="M_MODE_t"), G("M_LIFE", cfg="M_LIFE_t"), G("M_IDX", cfg="M_IDX_t"), G("M_BATCH", cfg="M_BGET"),
               G("M_C01a"), G("M_COND"), G("M_FAIL"), G("M_READ"), G("M_READ", cfg="M_WALK"), G("M_KC"), T("M_DOTQ"), H(400, 60)],
     own=[SDK],
@@ -204,8 +204,8 @@ PROPS["C16"] = dict(
 )
 PROPS["C13"] = dict(
     title="primary keys identify items faithfully and are enforced",
-    quick=[G("M_KEYS", cfg="M_KEYS_S"), T("M_NUMKEY"), T("M_HKEYS"), H(20)],
-    thorough=[G("M_KEYS", cfg="M_KEYS_S_t"), G("M_KEYS", cfg="M_KEYS_B"), T("M_NUMKEY"), T("M_HKEYS"), H(300, 60)],
+    quick=[G("M_KEYS", cfg="M_KEYS_S"), T("M_NUMKEY"), T("M_HKEYS", observe="last"), H(20)],
+    thorough=[G("M_KEYS", cfg="M_KEYS_S_t"), G("M_KEYS", cfg="M_KEYS_B"), T("M_NUMKEY"), T("M_HKEYS", observe="last"), H(300, 60)],
     own=[parts("Outcome", "ErrClass", "Data", "Base", "Desc", "NoCrash")],
     design_ref="DESIGN.md 6 C13",
     level_text="Hash+range keys (string and binary) over byte alphabets built to collide under separator-joined encodings, stored at most 2 "
